@@ -74,6 +74,33 @@ const PROBES: &[&str] = &[
     "functie f(s) { [s < 1, s + 1] } f(string(5))",
     "functie p() { }; [p() || \"abc\", p() && [1.5, 2], string(77) || p(), p() || 2.5]",
     "stel a = [1.5, \"x\"]; antwoord a;",
+    // numbers and text at the edges: signs in division and remainder, special float values, conversions
+    // in both directions, formatting of very large / small / negative-zero floats, multi-byte characters
+    "[7 / 2, -7 / 2, 7 / -2, 7 % 3, -7 % 3, 7 % -3, 0 - 7]",
+    "[7.5 / 2.0, -7.5 / 2.0, 7.5 % 2.0, -7.5 % 2.0, 1.0 / 3.0, 2.0 / 3.0 * 3.0, 5.0 % 0.0]",
+    "[1.0 / 0.0, -1.0 / 0.0, 0.0 / 0.0, 0.0 * -1.0]",
+    "[int(2.7), int(-2.7), int(\"42\"), int(\" 7\"), int(ja), int(nee), int(\"99999999999999999999\")]",
+    "[float(3), float(\"2.5\"), float(\"1e3\"), float(\".5\"), float(\"-0.0\"), float(ja)]",
+    "[string(2.50), string(1.0 / 3.0), string(100000000000000000000.0), string(0.000001), string(-0.0), string(ja), string(-12)]",
+    "[bool(0), bool(1), bool(\"\"), bool(\"a\"), bool(0.0), bool([]), bool([0])]",
+    "[lengte(\"héé∂\"), \"héé∂\"[1], \"héé∂\"[-1], lengte([]), lengte(\"\")]",
+    "stel s = string(12345); s[1] = \"é\"; s[3] = \"∂\"; [s, lengte(s), s[1], s[4]]",
+    "[1 / 0]",
+    "[2.5, \"x\", 1 % 0]",
+    "print(\"{} {} {}\", 1.5, [1, \"a\"], ja); print(\"{}\"); print(\"{} {}\", 1); [-(-5), -(2.5), !ja, !(1 < 2)]",
+    "[type(1), type(1.5), type(\"a\"), type([1]), type(ja), type(functie() { 1 })]",
+    "float(\"abc\")",
+    // texts that end in the first character of a two-character token (what follows the text in memory
+    // must not matter)
+    "1 /",
+    "stel a = 1; a =",
+    "ja &",
+    "ja |",
+    "1 <",
+    "2 >",
+    "nee; !",
+    // rendering of deeply nested values, repeatedly (every thread of a run may be in here at once)
+    "stel d = [[[[[[[[1, \"x\"]]]]]]], 2.5]; stel i = 0; zolang i < 4 { print(\"{} {}\", [d, [d]], i); i = i + 1; }; d",
 ];
 
 /// The batch: generated programs over one small shared identifier pool, probe programs that use a
@@ -108,8 +135,8 @@ pub fn batch(seed: u64, tier: Tier) -> &'static Batch {
 }
 
 fn make_program(seed: u64, i: usize) -> String {
-    if i % 10 == 9 {
-        PROBES[(i / 10) % PROBES.len()].to_string()
+    if i % 5 == 4 {
+        PROBES[(i / 5) % PROBES.len()].to_string()
     } else if i % 50 == 7 {
         // many constants (a constant pool cached between evaluations would show here)
         let items: Vec<String> = (0..120)
@@ -212,6 +239,7 @@ pub fn run_history(programs: &[String], modes: &[u8]) -> HistoryRun {
         let mut plan = Plan::plain();
         plan.budget = BUDGET;
         plan.alloc_mode = modes.get(i).cloned().unwrap_or(alloc::PLAIN);
+        plan.tail = Some(i as u64);
         let r = runner::run_eval(src, &plan, (i + 1) as u64, true);
         steps += r.steps;
         let d = if r.injected == Injected::Budget { DISCARD.to_string() } else { digest_of(&r.outcome, &r.out, &r.injected) };
@@ -398,7 +426,7 @@ pub fn run_threads(spec: &ThreadsSpec) -> ThreadsRun {
                         plan.alloc_mode = modes[pos];
                         runner::begin_run(&plan, eval_id, tid, Some(sh.sched.clone()));
                         alloc::set_mode(plan.alloc_mode);
-                        let r = catch_unwind(AssertUnwindSafe(|| nederlang::eval(src)));
+                        let r = catch_unwind(AssertUnwindSafe(|| runner::eval_text(src, Some((tid * 7 + pos) as u64))));
                         alloc::set_mode(alloc::PLAIN);
                         let (res, pending) = runner::finish_run_defer(r, eval_id);
                         match pending {
@@ -547,8 +575,19 @@ fn scenario_threads(acc: &mut Acc, seed: u64, index: u64, tier: Tier, rng: &mut 
         let n = 2 + rng.usize(7);
         idx.push((0..n).map(|_| rng.usize(b.len())).collect());
     }
+    // a storm: every thread evaluates one and the same program, several times (half of the storms
+    // take a program that renders nested values)
+    let storm = rng.chance(1, 8);
+    if storm {
+        let renders: Vec<usize> = (0..b.len()).filter(|i| i % 5 == 4 && b.get(*i).contains("print(")).collect();
+        let p = if !renders.is_empty() && rng.chance(1, 2) { *rng.pick(&renders) } else { rng.usize(b.len()) };
+        let reps = 2 + rng.usize(3);
+        for w in idx.iter_mut() {
+            *w = vec![p; reps];
+        }
+    }
     // sometimes all threads evaluate the very same program at the same time
-    if rng.chance(1, 6) {
+    if !storm && rng.chance(1, 6) {
         let p = rng.usize(b.len());
         for w in idx.iter_mut() {
             w[0] = p;
@@ -557,8 +596,8 @@ fn scenario_threads(acc: &mut Acc, seed: u64, index: u64, tier: Tier, rng: &mut 
     let work: Vec<Vec<String>> = idx.iter().map(|w| w.iter().map(|i| b.get(*i)).collect()).collect();
     let modes: Vec<Vec<u8>> = idx.iter().map(|w| w.iter().map(|_| mode_for(rng)).collect()).collect();
     let handoff: Vec<Vec<bool>> = idx.iter().map(|w| w.iter().map(|_| rng.chance(1, 2)).collect()).collect();
-    let mean = 1u64 << (1 + rng.below(8));
-    let change_points = if rng.chance(1, 4) {
+    let mean = if storm { 2 + rng.below(12) } else { 1u64 << (1 + rng.below(8)) };
+    let change_points = if !storm && rng.chance(1, 4) {
         let d = 1 + rng.below(6);
         let mut p: Vec<u64> = (0..d).map(|_| rng.below(4000)).collect();
         p.sort();
